@@ -230,14 +230,14 @@ C02_EXPL = ("symx executes preprocess.(*Preprocessor).CFG (copyGraph, canonicali
 PROPERTIES["C02"] = dict(
     explanation=C02_EXPL,
     bounds=dict(quick="conditions of nesting depth <=2 over x==nil, x!=nil, nil==y, nil!=y, c, !, (), &&, ||  (and, for A1/A2 only, ==true / !=false / false== / !=true); value switches `switch x { ... }` with 1-3 clauses of 1-2 values from {nil, s, t}, optional default, built by the REAL cfg.New, as first statement of a block or not",
-                thorough="nesting depth <=3 (listed spellings), depth <=2 with boolean-literal comparisons"),
+                thorough="nesting depth <=3 with at most 3 atoms (listed spellings; 267154 conditions - unrestricted depth 3 is ~1.5e8 shapes and was never run), depth <=2 with boolean-literal comparisons"),
     outside=["that a recognised guard discharges the consumer in the assertion tree (AddProduction / backpropagation), loop back edges, switch x {case nil:}, early returns: inside C01's unreachable core",
              "the second sentence of the statement (zero diagnostics for fully guarded programs; precision for single-call-site programs)",
              "native replay: the recorder that replaces (*RootAssertionNode).AddProduction exists only under symx, so sampled paths are not re-run natively for this check"],
     assumptions=COMMON_ASSUMPTIONS + ["(*RootAssertionNode).AddProduction is replaced by a recorder (the assertion tree is outside the kernel)", "pass.TypesInfo.Types is empty, so IsNil takes its literal path (a shadowed `nil` is outside)"],
     runs=[
         dict(pkg="assertion/function/assertiontree", files=C02_FILES, entry="Harness_C02", native=False,
-             quick=dict(params=dict(DEPTH=2, BOOL_LITERALS=0)), thorough=dict(params=dict(DEPTH=3, BOOL_LITERALS=0)), args=dict(sample_every=997)),
+             quick=dict(params=dict(DEPTH=2, BOOL_LITERALS=0)), thorough=dict(params=dict(DEPTH=3, BOOL_LITERALS=0, LEAVES=3)), args=dict(sample_every=997)),
         dict(pkg="assertion/function/assertiontree", files=C02_FILES, entry="Harness_C02", name="_boollits", native=False,
              quick=dict(params=dict(DEPTH=2, BOOL_LITERALS=1)), thorough=dict(params=dict(DEPTH=2, BOOL_LITERALS=1)), args=dict(sample_every=997)),
         dict(pkg="assertion/function/assertiontree", files=C02_FILES, entry="Harness_C02_Switch", native=False,
